@@ -168,6 +168,18 @@ def main(tier, replay, t0):
         r.shuffle(pairs)
         cases.append(("g%d" % k, pairs, r.random() < 0.5, r.choice([None, "all"]),
                       [r.choice([0, 3, 4]) for _ in pairs]))
+    # one crowded group: 18-34 variables, a later one repeating the index of the k-th declared
+    for k in range(40 if tier == "quick" else 400):
+        n_ = r.randint(18, 34)
+        idxs = r.sample(range(0, 200), n_)
+        pairs = [(0, b) for b in idxs]
+        what = r.random()
+        if what < 0.7:
+            pos = r.choice([0, 15, 16, 17, 31, 32, n_ - 2, r.randrange(n_ - 1)])
+            pos = min(pos, n_ - 2)
+            pairs.insert(r.randint(pos + 1, len(pairs)), pairs[pos])
+        cases.append(("b%d" % k, pairs, False, r.choice([None, "all"]),
+                      [r.choice([0, 3, 4]) for _ in pairs]))
     prefix_of = {}
     for (cid, pairs, used, val, kinds) in cases:
         if cid[0] in "rg" and r.random() < 0.3:
